@@ -111,6 +111,12 @@ func tokenizeStream(src io.Reader, normalize bool, dict *dictionary, updateDict 
 			// There are no more bytes to read, so we must now consume all bytes in the
 			// buffer.
 			tgt = idx + n
+			// The bytes behind the data are left over from the previous chunk. Clear
+			// them, so that a truncated multi-byte sequence at the very end of the
+			// input is not completed with bytes that are not part of it.
+			for i := tgt; i < len(rbuf) && i < tgt+utf8.UTFMax; i++ {
+				rbuf[i] = 0
+			}
 		} else if err != nil {
 			return nil, err
 		}
